@@ -131,6 +131,17 @@ PROPS = {
         "level_note": "trusted: Containers.tla / Civil.tla / LunarCal.tla, TLC, harness logging; thorough enumerates all civil and lunar years and months but samples days and sexagenary months",
         "technique": "TLA+ listing operators + trace validation of one List event per container",
     },
+    "C14": {
+        "title": "weeks of a month: seven consecutive days, right start weekday, no day lost",
+        "mc": {"quick": [{"module": "MC_Weeks", "cfg": "MC_Weeks.cfg", "workers": 2}]},
+        "rule": "civil months: 16 fixed (incl. 1582-09/10/11, Februaries of century years) + 560 seeded (quick) or all months 0001-02..9999-11 (thorough), each with all 7 week starts: week count, listed weeks and their days, the week of every date, next(n) of the first and last week for 16 step counts (all of -60..60 on a slice), index in year, acceptance of indices 0..6; lunar months of 33 / 600 seeded years likewise. "
+                "Non-trivial: months whose first week straddles the previous month, 4- and 6-week months, October 1582",
+        "exhaustive": {"quick": False, "thorough": True},
+        "assumptions": ["lunar month first days / lengths are the implementation's own (C03)"],
+        "level_text": "TLC checks the complete case analysis of weeks in a month (MC_Weeks: 7 first weekdays x lengths 21/28/29/30/31 x 7 week starts, walked week by week) and validates the real code for every (month, week start) against the same operators on day numbers: count, first days on the chosen weekday 7 apart, seven consecutive days, coverage of every day, the week of each date containing it, next(n) moving the first day by 7n, index in the year, refusal of indices beyond the count; thorough covers every civil month x 7 starts",
+        "level_note": "trusted: Weeks.tla, Civil.tla, TLC, harness logging; weeks are compared by first day",
+        "technique": "TLA+ week case analysis checked exhaustively with TLC + trace validation per (month, week start)",
+    },
     "C15": {
         "title": "term-anchored day series: Nines, Dog days, Plum rains, pentads, ruling stems",
         "mc": {"quick": [{"module": "MC_Series", "cfg": "MC_Series.cfg", "workers": 4}]},
